@@ -201,10 +201,13 @@ Fixpoint lifetimes (chained : bool) (s : dstate) (ls : list (list beacon * nat))
 
 (* ---------------- shapes read from the source, histories ---------------- *)
 
+(* a call on the key store inside storeDKGOutput: a Save of one file, or Reset (removes both) *)
+Inductive kcall := KSave (f : kfile) | KReset.
+
 Record shape := mkShape {
   sh_save_current : list (list dbucket);    (* BoltStore.SaveCurrent: transactions, puts in each *)
   sh_save_finished : list (list dbucket);   (* BoltStore.SaveFinished *)
-  sh_store_output : list kfile;             (* BeaconProcess.storeDKGOutput: order of the Save calls *)
+  sh_store_output : list kcall;             (* BeaconProcess.storeDKGOutput: its key-store calls, in order *)
   sh_reset : list kfile;                    (* fileStore.Reset: order of the Delete calls *)
   sh_finish_db_first : bool;                (* executeAndFinishDKG: SaveFinished precedes the hand-over *)
   sh_chain_put : list (list Z);             (* boltdb Put: transactions, number of bucket.Put in each *)
@@ -213,7 +216,7 @@ Record shape := mkShape {
 }.
 
 Definition expected_shape : shape :=
-  mkShape [[BCurrent]] [[BFinished; BCurrent]] [KGroup; KShare] [KShare; KGroup] true [[1]] true true.
+  mkShape [[BCurrent]] [[BFinished; BCurrent]] [KSave KGroup; KSave KShare] [KShare; KGroup] true [[1]] true true.
 
 Definition shape_eqb_bucket (a b : dbucket) : bool :=
   match a, b with BCurrent, BCurrent | BFinished, BFinished => true | _, _ => false end.
@@ -235,7 +238,10 @@ Definition expand (sh : shape) (ev : event) : list pop :=
   match ev with
   | EvStage r => dkg_txs (sh_save_current sh) r
   | EvComplete r =>
-      let files := flat_map (fun f => save_file f (d_epoch r)) (sh_store_output sh) in
+      let files := flat_map (fun c => match c with
+                                      | KSave f => save_file f (d_epoch r)
+                                      | KReset => map PFileRemove (sh_reset sh)
+                                      end) (sh_store_output sh) in
       if sh_finish_db_first sh then dkg_txs (sh_save_finished sh) r ++ files
       else files ++ dkg_txs (sh_save_finished sh) r
   | EvLeave => map PFileRemove (sh_reset sh)
@@ -304,6 +310,19 @@ Definition class_half_reset (s : dstate) : bool :=        (* leaving: one file r
   | FFull _, FAbsent | FAbsent, FFull _ => true
   | _, _ => false
   end.
+
+(* the files of a completed epoch were removed (not merely being rewritten) although the node did
+   not leave: nothing of the previous epoch is left to restart from *)
+Definition file_absent (c : fcontent) : bool := match c with FAbsent => true | _ => false end.
+Definition class_prev_destroyed (s : dstate) : bool :=
+  match fin s with
+  | Some r => (2 <=? d_epoch r) && negb (is_left s) && (file_absent (gfile s) || file_absent (sfile s))
+  | None => false
+  end.
+
+(* storeDKGOutput issues no destructive key-store call (Reset) at all *)
+Definition store_output_non_destructive (sh : shape) : bool :=
+  forallb (fun c => match c with KReset => false | KSave _ => true end) (sh_store_output sh).
 
 (* positions of the event boundaries in an expanded run *)
 Fixpoint boundaries (sh : shape) (evs : list event) (off : nat) : list nat :=
